@@ -271,5 +271,78 @@ pub fn _add(guard: &mut MemfsGuard, entry: MemfsEntry) -> (r: RvResult<PathBuf>)
         Ok(path)
 }
 
+
+impl MemfsEntry {
+    pub fn remove(&mut self, name: NameStr) -> (r: RvResult<()>)
+        ensures
+            !old(self).dir ==> r is Err && *final(self) == *old(self),
+            old(self).dir ==> r is Ok && final(self).ev() == (EntryV { kids: match old(self).ev().kids { Some(k) => Some(k.remove(name@)), None => None }, ..old(self).ev() }),
+    {
+        // Ensure this is a valid directory
+        if !self.dir {
+            return Err(PathError::is_not_dir(&self.path).into());
+        }
+
+        // Remove the entry
+        if let Some(ref mut files) = self.files {
+            files.remove(&name);
+        }
+
+        Ok(())
+    }
+}
+
+pub open spec fn spec_remove(s: St, p: PathV) -> St {
+    if !s.entries.contains_key(p) || p.len() == 0 { s } else {
+        let d = p.drop_last();
+        let pe = s.entries[d];
+        St {
+            entries: s.entries.insert(d, EntryV { kids: Some(pe.kids->Some_0.remove(p.last())), ..pe }).remove(p),
+            files: s.files.remove(p),
+            cwd: s.cwd,
+        }
+    }
+}
+
+pub fn remove(guard: &mut MemfsGuard, path: PathBuf) -> (r: RvResult<()>)
+    requires wf(old(guard).st()), path.abs_clean(),
+    ensures
+        r is Err ==> final(guard).st() == old(guard).st(),
+        wf(final(guard).st()),
+        // documented: a directory containing files is an error
+        (old(guard).st().entries.contains_key(path@) && old(guard).st().entries[path@].kids is Some
+            && !(old(guard).st().entries[path@].kids->Some_0 =~= Set::<Name>::empty())) ==> (r is Err && r->Err_0.kind == ErrKind::DirContainsFiles),
+        r is Ok ==> final(guard).st().entries =~= spec_remove(old(guard).st(), path@).entries,
+        r is Ok ==> final(guard).st().files =~= spec_remove(old(guard).st(), path@).files,
+{
+        let ghost s0 = guard.st();
+        let ghost p = path@;
+        // First check if the target contains files
+        if let Some(entry) = guard.get_entry(&path) {
+            if let Some(ref files) = entry.files {
+                if !files.is_empty() {
+                    return Err(PathError::dir_contains_files(path).into());
+                }
+            }
+        }
+
+        // Next remove the file from its parent
+        let dir = path.dir()?;
+        if let Some(entry) = guard.get_entry_mut(&dir) {
+            entry.remove(path.base()?)?;
+        }
+
+        // Next remove its data file if it exists
+        if let Some(entry) = guard.get_entry(&path) {
+            if entry.is_file() {
+                guard.remove_file(&path);
+            }
+        }
+
+        // Finally remove the entry from the filesystem
+        guard.remove_entry(&path);
+        Ok(())
+}
+
 } // verus!
 fn main() {}
